@@ -23,6 +23,8 @@ pub mod c20;
 pub mod c21;
 pub mod c22;
 pub mod c23;
+pub mod c24;
+pub mod c25;
 pub mod c26;
 pub mod c27;
 pub mod c28;
@@ -71,6 +73,8 @@ pub const REGISTRY: &[(&str, RunFn)] = &[
     ("C21", c21::run),
     ("C22", c22::run),
     ("C23", c23::run),
+    ("C24", c24::run),
+    ("C25", c25::run),
     ("C26", c26::run),
     ("C27", c27::run),
     ("C28", c28::run),
